@@ -220,6 +220,11 @@ class RegionMask:
                 warnings.simplefilter('ignore', RuntimeWarning)
                 weighted_cutout = cutout * self.data
 
+            if (~np.isfinite(fill_value)
+                    and weighted_cutout.dtype.kind not in 'fc'):
+                # as in cutout, a non-finite fill value needs a float array
+                weighted_cutout = weighted_cutout.astype(float)
+
             # fill values outside of the mask but within the bounding box
             if isinstance(weighted_cutout, u.Quantity):
                 # as in cutout, the fill value is in the units of the data
